@@ -149,6 +149,27 @@ pub fn check(m: &Mat, p: &mut Probe) -> Check {
     let hb = m.to_bits();
     let rank = hb.rank();
     let hs = m.to_sparse();
+    // history: in two thirds of the cases the conversion is first called, on the same thread, on
+    // another matrix of the same dimensions (the zero matrix, which is rejected, or [0 | I], which
+    // is accepted); the function is stateless, so this must not influence the call under test
+    match m.ones.len() % 3 {
+        1 => {
+            let z = ldpc_toolbox::sparse::SparseMatrix::new(r, n);
+            let w = guarded(|| parity_to_systematic(&z)).map_err(|e| Fail::new("panic", format!("parity_to_systematic panicked on the {r} x {n} zero matrix: {e}")))?;
+            ensure!(matches!(w, Err(Error::NotFullRank)), "zero-matrix", "the {r} x {n} zero matrix was not rejected as rank deficient");
+            p.class("after-a-rejected-call");
+        }
+        2 => {
+            let mut id = ldpc_toolbox::sparse::SparseMatrix::new(r, n);
+            for i in 0..r {
+                id.insert(i, n - r + i);
+            }
+            let w = guarded(|| parity_to_systematic(&id)).map_err(|e| Fail::new("panic", format!("parity_to_systematic panicked on [0 | I]: {e}")))?;
+            ensure!(w.is_ok(), "identity-tail", "[0 | I_{r}] ({r} x {n}) has full rank but the conversion returned {w:?}");
+            p.class("after-an-accepted-call");
+        }
+        _ => {}
+    }
     let res = guarded(|| parity_to_systematic(&hs)).map_err(|e| Fail::new("panic", format!("parity_to_systematic panicked: {e}")))?;
     p.class_if(rank < r, "rank-deficient");
     p.class_if(r == n, "square");
@@ -200,7 +221,7 @@ pub fn property() -> Property {
             }),
             Box::new(Sub {
                 name: "conversion",
-                rule: "r x n binary matrices, 1 <= r <= n <= 12 (thorough 40), by class: uniform at three densities; full rank by construction (row-mixed [I|A] with permuted columns); rank deficient by construction (row = sum of two others, duplicated row, zero row); pivots at the far right behind leading zero/duplicate columns; zero and duplicate columns; (near-)identity incl. square. Oracle: own GF(2) rank decides Err(NotFullRank) vs Ok, never a panic; Ok result has the same dimensions, the same multiset of columns, an invertible last-r-column block (own rank) and is accepted by Encoder::from_h. Non-trivial = full rank input whose last r columns are not already invertible",
+                rule: "r x n binary matrices, 1 <= r <= n <= 12 (thorough 40), in two thirds of the cases after a call on another matrix of the same dimensions on the same thread (the zero matrix, rejected, or [0 | I], accepted), by class: uniform at three densities; full rank by construction (row-mixed [I|A] with permuted columns); rank deficient by construction (row = sum of two others, duplicated row, zero row); pivots at the far right behind leading zero/duplicate columns; zero and duplicate columns; (near-)identity incl. square. Oracle: own GF(2) rank decides Err(NotFullRank) vs Ok, never a panic; Ok result has the same dimensions, the same multiset of columns, an invertible last-r-column block (own rank) and is accepted by Encoder::from_h. Non-trivial = full rank input whose last r columns are not already invertible",
                 cases: |t| t.pick(1_000_000, 20_000_000),
                 strategy: |t| strategy(t.pick(12, 40)),
                 check,
